@@ -113,10 +113,18 @@ def cases(ctx):
             level = rng.choice(['lang', 'set'])
             if not lay['padding']:
                 lay['padding'] = [rand_size(rng, rng.choice(UNITS), small=True) for _ in range(4)]
-        yield {'writer': writer, 'level': level, 'layout': lay, 'vw': vw, 'vh': vh,
-               'relativize': rng.random() < 0.8, 'fit': rng.random() < 0.6,
-               'second_language': writer in ('SAMIWriter', 'DFXPWriter') and rng.random() < 0.4,
-               'declared_p_style': writer == 'SAMIWriter' and level == 'set' and rng.random() < 0.7}
+        case = {'writer': writer, 'level': level, 'layout': lay, 'vw': vw, 'vh': vh,
+                'relativize': rng.random() < 0.8, 'fit': rng.random() < 0.6,
+                'second_language': writer in ('SAMIWriter', 'DFXPWriter') and rng.random() < 0.4,
+                'declared_p_style': writer == 'SAMIWriter' and level == 'set' and rng.random() < 0.7}
+        yield case
+        if rng.random() < 0.25:
+            # the very same layout again, for another video size (or without one): the percentages are those
+            # of THIS video, whatever was computed for the layout before
+            again = dict(case)
+            again['vw'], again['vh'] = rng.choice([v for v in VIDEOS if v != (vw, vh)])
+            again['repeat'] = True
+            yield again
 
 
 def nontrivial(case):
@@ -215,6 +223,8 @@ def check(case, ctx):
     if o and o[0][1] == 'px' and o[1][1] == 'px' and (
             int(o[0][0]) in JUST_BELOW.get(case['vw'], ()) or int(o[1][0]) in JUST_BELOW.get(case['vh'], ())):
         ctx.count('percentages_just_below_a_whole_number')
+    if case.get('repeat'):
+        ctx.count('layouts_written_again_for_another_video_size')
     cs = build_set(case)
     opts = {'relativize': case['relativize'], 'fit_to_screen': case['fit'], 'video_width': case['vw'],
             'video_height': case['vh']}
